@@ -132,7 +132,7 @@ func cmdFunc(args []string) {
 		os.MkdirAll(dir, 0o755)
 	}
 	HintSolver = func(obls []*Obligation) {
-		(&Solver{Dir: dir, Timeout: *timeout, Par: solverPar(), Prelude: e.Prelude(), QFPrelude: e.QFPrelude(), Eng: e}).SolveAll(obls)
+		(&Solver{Dir: dir, Timeout: *timeout, Par: solverPar(), Prelude: e.Prelude(), QFPrelude: e.QFPrelude(), Eng: e, noRetry: true}).SolveAll(obls)
 	}
 	for _, key := range fs.Args() {
 		if e.Contracts.Funcs[key] == nil {
